@@ -14,6 +14,7 @@ of one simulated run.  The wrappers
 """
 import math
 import signal
+import sys
 import threading
 
 
@@ -50,6 +51,14 @@ def _live(entry, revoked=None):
         if seen is not None and seen >= entry[2]:
             return False
     return getattr(target, "cr_frame", entry) is not None
+
+
+def _frame_of(target):
+    for attr in ("cr_frame", "gi_frame", "ag_frame"):
+        frame = getattr(target, attr, None)
+        if frame is not None:
+            return frame
+    return None
 
 
 def _sigkind(signal):
@@ -105,6 +114,7 @@ class Seam:
         self.current_target = None
         self.verdict = None
         self.revoked = {}         # id(signal) -> tick of the last observed revoke()
+        self.fallback = False
         self._orig_revoke = None
 
     # -- names -------------------------------------------------------------------------
@@ -126,11 +136,14 @@ class Seam:
     def install(self):
         from usim._core import loop as L
         cls = L.Loop
-        for attr in ("_run_coroutine", "schedule", "__init__", "run"):
+        for attr in ("schedule", "__init__", "run"):
             if not callable(getattr(cls, attr, None)):
                 raise SeamMissing("usim._core.loop.Loop.%s" % attr)
+        # A kernel without a per-activation method (the loop body inlined into run()) is observed
+        # from outside instead: see _install_profile (fallback seam, slower, same callbacks).
+        self.fallback = not callable(getattr(cls, "_run_coroutine", None))
         self._cls = cls
-        self._orig = (cls._run_coroutine, cls.schedule, cls.__init__, cls.run)
+        self._orig = (getattr(cls, "_run_coroutine", None), cls.schedule, cls.__init__, cls.run)
         orig_run, orig_sched, orig_init, orig_loop_run = self._orig
         seam = self
 
@@ -162,7 +175,10 @@ class Seam:
                 raise
             seam._finish_loop(loop)
 
-        cls._run_coroutine = _run_coroutine
+        if not self.fallback:
+            cls._run_coroutine = _run_coroutine
+        else:
+            self._install_profile(L)
         cls.schedule = schedule
         cls.__init__ = __init__
         cls.run = run
@@ -209,7 +225,11 @@ class Seam:
         self._disarm_cpu_watchdog()
         if self.installed:
             cls = self._cls
-            cls._run_coroutine, cls.schedule, cls.__init__, cls.run = self._orig
+            if self.fallback:
+                self._remove_profile()
+            else:
+                cls._run_coroutine = self._orig[0]
+            cls.schedule, cls.__init__, cls.run = self._orig[1:]
             if self._orig_revoke is not None:
                 self._orig_revoke[0].revoke = self._orig_revoke[1]
                 self._orig_revoke = None
@@ -221,6 +241,82 @@ class Seam:
     def __exit__(self, *exc):
         self.uninstall()
         return False
+
+    # -- fallback seam: activations observed through sys.setprofile ------------------------
+    def _install_profile(self, L):
+        """Loop has no per-activation method to wrap: an activation is then "code of
+        usim._core.loop calls send()/throw() of a coroutine" (the c_call event of the profiler,
+        whose argument is the bound builtin method - its __self__ is the activity) and it ends
+        with the matching c_return / c_exception. The signal is not visible in that event; it is
+        taken from the run-queue model (the oldest live entry for that target), so the model
+        cannot tell a wrong signal from the right one in this mode - every other rule is
+        evaluated as usual."""
+        seam = self
+        loopfile = L.__file__
+        local = self._local = threading.local()
+        state = getattr(L, "__LOOP_STATE__", None)
+
+        def current_loop(back):
+            loop = getattr(state, "loop", None) if state is not None else None
+            if isinstance(loop, seam._cls):
+                return loop
+            while back is not None:
+                cand = back.f_locals.get("self")
+                if isinstance(cand, seam._cls):
+                    return cand
+                back = back.f_back
+            return None
+
+        def profile(frame, event, arg):
+            if event == "c_call":
+                if frame.f_code.co_filename != loopfile:
+                    return
+                kind = getattr(arg, "__name__", None)
+                if kind != "send" and kind != "throw":
+                    return
+                target = getattr(arg, "__self__", None)
+                if _frame_of(target) is None and not hasattr(target, "cr_frame"):
+                    return
+                loop = current_loop(frame)
+                if loop is None:
+                    return
+                stack = local.__dict__.setdefault("stack", [])
+                signal = seam._expected_signal(loop, target) if kind == "throw" else None
+                outer = (seam.current, seam.current_target)
+                entry = [frame, loop, target, signal, outer, None]
+                stack.append(entry)
+                try:
+                    seam._on_activation(loop, target, signal)
+                except HarnessAbort as err:
+                    entry[5] = err        # raised to the kernel when this activation is over
+            elif event == "c_return" or event == "c_exception":
+                stack = local.__dict__.get("stack")
+                if stack and stack[-1][0] is frame and \
+                        getattr(arg, "__self__", None) is stack[-1][2]:
+                    _, loop, target, signal, outer, abort = stack.pop()
+                    seam.current, seam.current_target = outer
+                    for mon in seam.post_monitors:
+                        mon(seam, loop, target, signal)
+                    if abort is not None:
+                        raise abort
+
+        self._profile = profile
+        self._old_profile = sys.getprofile()
+        threading.setprofile(profile)
+        sys.setprofile(profile)
+
+    def _remove_profile(self):
+        sys.setprofile(self._old_profile)
+        threading.setprofile(None)
+
+    def _expected_signal(self, loop, target):
+        model = self.models.get(id(loop))
+        if model is None or model.loop is not loop:
+            return None
+        for entry in model.queues.get(loop.time, ()):
+            if entry[0] is target and _live(entry, self.revoked):
+                return entry[1]
+        return None
 
     # -- kernel model ------------------------------------------------------------------
     def _model(self, loop):
